@@ -4,7 +4,8 @@ import Tickit.Proof.WinFlush
   C02 — A window's drawing is confined to the cells it owns, in its own coordinates.
 
   Everything is about `WinFlush.flushRender beh st t`, the rendering half of `tickit_window_flush` (the model of the code
-  after the `fix:` commit 7086a82, which cuts every damage rectangle down to the root window's current area): it
+  after the `fix:` commits 7086a82, which cuts every damage rectangle down to the root window's current area, and
+  1032b01, which renders nothing for a hidden root): it
   renders the damage set `t.root.damage` of tree `t` through `_do_expose` and flushes the buffer to the terminal.
   `beh w rect` is the drawing program window `w`'s expose handler runs when handed `rect`; the theorems hold for
   *every* `beh`, and `confinement` in addition for every program whatsoever run in the handler's place.
@@ -56,6 +57,12 @@ theorem screen_change_confined (beh : Id → Rect → List DrawOp) (st st' : St)
     (h : flushRender beh st t = .ok (st', shots)) :
     ∀ L C, st'.screen L C ≠ st.screen L C → Covered t.root.damage L C :=
   flushRender_frame beh st st' t shots h
+
+/-- A hidden root window is not painted (what failed before the fix 1032b01): no handler runs, no cell changes. -/
+theorem hidden_root_not_painted (beh : Id → Rect → List DrawOp) (st st' : St) (t : Tree) (shots : List Shot)
+    (h : flushRender beh st t = .ok (st', shots)) (root : Win) (hr : t.wins[0]? = some root)
+    (hv : root.isVisible = false) : shots = [] ∧ st'.screen = st.screen :=
+  flushRender_hidden_root beh st st' t shots h root hr hv
 
 /-! ### non-vacuity: a tree with overlapping siblings, a child sticking out of its parent and a hidden window -/
 
